@@ -131,6 +131,13 @@ func (self *Fork) partialVdrKill() (*VDRKillReport, bool) {
 	if state := self.getState(); state.IsFailed() {
 		return nil, false
 	} else if state == DisabledState {
+		// No job ran, but the temp directories were created with the
+		// split and join directories.
+		for _, md := range []*Metadata{self.split_metadata, self.join_metadata} {
+			if td := md.TempDir(); td != "" {
+				os.RemoveAll(td)
+			}
+		}
 		return self.vdrKill(nil), true
 	} else if rep, ok := self.getVdrKillReport(); ok {
 		if self.node.top.rt.Config.Debug {
